@@ -1,2 +1,15 @@
 #!/bin/sh
-exit 0
+# Build the framework offline: regenerate coq/Gen from /repo, compile every Coq file, extract, build the model binary.
+set -e
+cd "$(dirname "$0")"
+mkdir -p build/ocaml coq/Gen evidence
+PYTHONPATH=/repo/modules PYTHONHASHSEED=0 PYTHONDONTWRITEBYTECODE=1 PYTHONWARNINGS=ignore \
+  /venv/bin/python harness/extract_tables.py coq/Gen/Tables.v
+cd coq
+coq_makefile -f _CoqProject -o Makefile >/dev/null
+timeout 3000 make -k -j16 >/dev/null 2>../build/make.err || { tail -30 ../build/make.err; echo "setup: some Coq files failed (the affected checks will report it)"; }
+cd ../build/ocaml
+rm -f pelmodel.mli
+cp ../../ocaml/driver.ml .
+if [ -f pelmodel.ml ]; then ocamlfind ocamlopt -w -a -package str pelmodel.ml driver.ml -o pelmodel; fi
+echo "setup done"
